@@ -258,7 +258,21 @@ def o_reparse(root, pre, op, res, extra):
     b = reparse_struct(again)
     if a != b:
         return [(f'reparse:structure-differs:{op["kind"] if op else "parse"}', str(intro.struct_diff(a, b)))]
+    ca, cb = comment_values(root), comment_values(again)
+    if ca != cb:
+        return [(f'reparse:comment-values-differ:{op["kind"] if op else "parse"}', f'block comments (indent, value) in document order: {ca!r} != {cb!r}')]
     return []
+
+
+def comment_values(m):
+    """Block comment lines of a document in store order (the indent of a merged block is the first line's, so it is not compared): their attribution is set aside, their
+    content is not."""
+    out = []
+    for t in m.token_store:
+        if isinstance(t, models.BlockComment):
+            # per line: two adjacent comment blocks of the same indentation re-read as one block
+            out.extend(line.rstrip(' \t\r') for line in t.value.split('\n'))
+    return out
 
 
 def reparse_struct(m):
